@@ -262,13 +262,13 @@ func runC13(c *Ctx, r *Report) {
 	counts := map[string]int{}
 	guardObligations(c, r, le, "R-C13.1", map[string]bool{"IPFSLog": true, "OrderedMap": true}, counts)
 	r.Tables["guarded_access_counts"] = counts
-	r.Floor("R-C13.1", "IPFSLog.heads accesses", counts["IPFSLog.heads"], 12)
-	r.Floor("R-C13.1", "IPFSLog.Entries accesses", counts["IPFSLog.Entries"], 12)
-	r.Floor("R-C13.1", "IPFSLog.Next accesses", counts["IPFSLog.Next"], 3)
-	r.Floor("R-C13.1", "IPFSLog.Clock accesses", counts["IPFSLog.Clock"], 8)
-	r.Floor("R-C13.1", "IPFSLog.Identity accesses", counts["IPFSLog.Identity"], 4)
-	r.Floor("R-C13.1", "OrderedMap.keys accesses", counts["OrderedMap.keys"], 8)
-	r.Floor("R-C13.1", "OrderedMap.values accesses", counts["OrderedMap.values"], 4)
+	r.Floor("R-C13.1", "IPFSLog.heads accesses", counts["IPFSLog.heads"], 6)
+	r.Floor("R-C13.1", "IPFSLog.Entries accesses", counts["IPFSLog.Entries"], 6)
+	r.Floor("R-C13.1", "IPFSLog.Next accesses", counts["IPFSLog.Next"], 1)
+	r.Floor("R-C13.1", "IPFSLog.Clock accesses", counts["IPFSLog.Clock"], 4)
+	r.Floor("R-C13.1", "IPFSLog.Identity accesses", counts["IPFSLog.Identity"], 2)
+	r.Floor("R-C13.1", "OrderedMap.keys accesses", counts["OrderedMap.keys"], 4)
+	r.Floor("R-C13.1", "OrderedMap.values accesses", counts["OrderedMap.values"], 2)
 
 	// R-C13.2 pairing
 	nops := 0
@@ -284,7 +284,7 @@ func runC13(c *Ctx, r *Report) {
 			r.Hold("R-C13.2", key, op.Pos, true, fmt.Sprintf("%s on %s(%s) well-formed (defer=%v)", op.Op, op.Class, op.Base, op.Defer))
 		}
 	}
-	r.Floor("R-C13.2", "lock operations (IPFSLog, OrderedMap)", nops, 40)
+	r.Floor("R-C13.2", "lock operations (IPFSLog, OrderedMap)", nops, 20)
 	for _, ex := range le.Exits {
 		var mine []string
 		for _, h := range ex.Held {
@@ -306,7 +306,7 @@ func runC13(c *Ctx, r *Report) {
 		ngo++
 		r.Note("go literal %s (parent %s) at %s: joined-before-release=%v inLoop=%v inherits=%v", g.Fn.Name, g.Parent.Name, p.Pos(g.Pos), g.Joined, g.InLoop, g.Inherited)
 	}
-	r.Floor("R-C13.3", "go statements with literals", ngo, 2)
+	r.Floor("R-C13.3", "go statements with literals", ngo, 1)
 	nsib := 0
 	for _, w := range le.SibWrites {
 		if w.Lit.Pkg.PkgPath == p.Mod {
@@ -355,7 +355,7 @@ func runC13(c *Ctx, r *Report) {
 			r.Hold("R-C13.4", r.Key("R-C13.4", w, "single-region", ""), w.Body.Pos(), true, "all guarded writes of "+w.Name+" lie in one uninterrupted critical section")
 		}
 	}
-	r.Floor("R-C13.4", "functions writing guarded log state", len(ws), 3)
+	r.Floor("R-C13.4", "functions writing guarded log state", len(ws), 2)
 
 	// R-C13.5 blocking under the log lock
 	nblock := 0
@@ -503,7 +503,7 @@ func runC13(c *Ctx, r *Report) {
 		})
 	}
 	r.Hold("R-C13.7", r.Key("R-C13.7", nil, "no-store", "config"), token.NoPos, true, fmt.Sprintf("%d selector uses of configuration fields, none is a store target", nImmReads))
-	r.Floor("R-C13.7", "uses of configuration fields", nImmReads, 10)
+	r.Floor("R-C13.7", "uses of configuration fields", nImmReads, 5)
 
 	// R-C13.8 is evaluated inside guardObligations (dischargeByConstruction); count literals
 	ctxT := p.Named("", "CanAppendContext")
@@ -519,7 +519,7 @@ func runC13(c *Ctx, r *Report) {
 			return true
 		})
 	}
-	r.Floor("R-C13.8", "CanAppendContext literals", nctx, 2)
+	r.Floor("R-C13.8", "CanAppendContext literals", nctx, 1)
 }
 
 func stripIndexStar(e ast.Expr) ast.Expr {
